@@ -3,7 +3,10 @@ CONSTANTS
   Eps = {e1, e2, e3}
   MaxNotes = 6
   None = None
+  Calls = {}
+  GateBySubscription = FALSE
 INVARIANT NoViolation
 INVARIANT QuietOK
 INVARIANT Structural
+INVARIANT NoDeadDispatch
 CHECK_DEADLOCK FALSE
